@@ -289,7 +289,35 @@ func (e *Exec) noteSharedWrite(o *Obj) {
 	if o.glob != nil {
 		name = o.glob.String()
 	}
-	e.sharedWrites[name] = e.curSite()
+	site := e.curSite()
+	e.sharedWrites[name] = site
+	// a write by the code under test (not by a harness or a cut-point shim) to memory that
+	// was created by package initialisation is shared by every EVM instance in the process
+	if e.h.SharedWrites && len(e.stack) > 0 {
+		// the responsible code is the innermost frame that belongs to the repository
+		// (library code such as uint256 methods is attributed to its caller)
+		file, fnName := "", ""
+		for i := len(e.stack) - 1; i >= 0; i-- {
+			fr := e.stack[i]
+			f := ""
+			if fr.fn.Pos().IsValid() {
+				f = e.prog.Fset.Position(fr.fn.Pos()).Filename
+			} else if fr.curInstr != nil && fr.curInstr.Pos().IsValid() {
+				f = e.prog.Fset.Position(fr.curInstr.Pos()).Filename
+			}
+			if strings.HasPrefix(f, e.eng.repo+"/") {
+				file, fnName = f, fr.fn.String()
+				site = e.siteOf(fr)
+				break
+			}
+		}
+		if file != "" && !strings.Contains(file, "zz_verif_") && !strings.Contains(fnName, "verif") && !strings.Contains(fnName, "Verif") {
+			if name == "" {
+				name = "object created by package initialisation"
+			}
+			e.reportViolation("shared-write", "C16: the code under test writes to package-level memory shared by all EVM instances ("+name+")", site, nil)
+		}
+	}
 }
 
 // describe renders a value for diagnostics / observation logs.
